@@ -14,6 +14,9 @@ from .values import *
 sys.setrecursionlimit(1000000)
 
 
+BARE_VARIANTS = {'Less': 'Ordering', 'Equal': 'Ordering', 'Greater': 'Ordering', 'None': 'Option', 'Some': 'Option', 'Ok': 'Result', 'Err': 'Result'}
+
+
 class State:
     __slots__ = ('store', 'pc', 'events', 'meta')
 
@@ -120,11 +123,15 @@ class Interp:
             return True
         self.stats['queries'] += 1
         t = time.time()
-        sol = z3.Solver()        # a fresh (non-incremental) solver: z3 then applies its bit-vector preprocessing
-        sol.set('timeout', 30000)
+        # a fresh (non-incremental) solver with an explicit bit-blasting pipeline (UFs are ackermannised)
+        sol = z3.Then('simplify', 'solve-eqs', 'ackermannize_bv', 'bit-blast', 'sat').solver()
+        sol.set('timeout', 60000)
         sol.add(*conds)
         if extra is not None:
             sol.add(extra)
+        ax = getattr(self, 'axioms_hook', None)
+        if ax is not None:
+            sol.add(*ax(list(conds) + ([extra] if extra is not None else [])))
         r = sol.check()
         self.stats['qtime'] += time.time() - t
         if r == z3.unknown:
@@ -134,6 +141,8 @@ class Interp:
                 sq.add(*conds)
                 if extra is not None:
                     sq.add(extra)
+                if ax is not None:
+                    sq.add(*ax(list(conds) + ([extra] if extra is not None else [])))
                 open(os.environ['VERIF_DUMPQ'], 'w').write(sq.to_smt2())
             raise Inconclusive('solver returned unknown on a feasibility query')
         if r == z3.sat and extra is None:
@@ -438,6 +447,8 @@ class Interp:
             vals = [self.operand(st, fid, o, fn) for o in ops]
             p = strip_generics(path)
             parent, _, last = p.rpartition('::')
+            if not parent and last in BARE_VARIANTS:
+                return Enum(BARE_VARIANTS[last], last, vals)
             pk = self.defs.tykey(parent) if parent else None
             if pk and self.defs.enum_of(pk) is not None and last in self.defs.enum_of(pk).index:
                 return Enum(pk, last, vals)
@@ -845,6 +856,15 @@ class Interp:
             self.run(fn, args, st, cont, depth + 1)
             return
         # `x.into()` where the target has a walrus `impl From<X> for Y` (e.g. the generated Instr conversions)
+        m = re.match(r'^<(.*) as TryInto<(.*)>>::try_into$', callee)
+        if m and args and isinstance(args[0], (Struct, Enum)):
+            want = self.defs.tykey(args[0].ty)
+            dst = self.defs.tykey(m.group(2))
+            cands = [f for f in self.by_last.get('try_from', []) if len(f.params) == 1 and self.defs.tykey(f.params[0][1]) == want
+                     and self.fninfo(f)['impl_ty'] == dst.split('::')[-1]]
+            if len(cands) == 1:
+                self.run(cands[0], args, st, cont, depth + 1)
+                return
         m = re.match(r'^<(.*) as Into<(.*)>>::into$', callee)
         if m and args:
             v = args[0]
